@@ -12,42 +12,94 @@ RULE = ("cases = (op, data type, value): op=int in-range value (all values of th
         "exhaustively, all values within 2 of 0, of +-2^k and of the range ends for wider types, seeded "
         "random), op=oor out-of-range value (min-1, min-2, max+1, max+2, +-2^k up to 2^70, random), "
         "op=bytes byte string of length 0..9 (all 1- and 2-byte patterns exhaustively), op=real IEEE bit "
-        "pattern, op=text string. Oracle: int.to_bytes / hand-written IEEE 754 decoder / code-unit string "
-        "encoder. Non-trivial = anything but an in-range integer with |v| < 100; distinct = canonical "
-        "JSON of the case.")
+        "pattern, op=text string. Routes: variable made in code / imported from EDS text / object that "
+        "described another type before ('prev'); 'lim' = the variable carries declared limits (min/max "
+        "set in code or LowLimit/HighLimit in the EDS: strictly inside the type range, equal to it, "
+        "inverted, one-sided, degenerate) - the oracle is unchanged: every value of the TYPE's range "
+        "encodes exactly, every value outside it is rejected. op=hist: a history over 1..3 variable "
+        "objects (same or different types, code/EDS, with/without limits) of steps enc / dec / len / "
+        "type (assignment of data_type) / raw; every step is judged like the single ops against the "
+        "object's CURRENT type, decode_raw is also applied to the very object encode_raw returned, and "
+        "every encode result is kept and must still hold the same bytes after every later step "
+        "(enumerated: pairs of objects of one type and of neighbouring types, every ordered pair "
+        "(previous type, target type) with non-integral reals / -0.0 / subnormals / bool / text values; "
+        "random histories by Hypothesis). Oracle: int.to_bytes / hand-written IEEE 754 decoder / "
+        "code-unit string encoder. Non-trivial = anything but an in-range integer with |v| < 100; "
+        "distinct = canonical JSON of the case.")
 ASSUMPTIONS = [
     "trailing NUL characters are excluded from text (decode_raw documents stripping them)",
     "REAL32 values are binary32-representable (others are rounded by any codec)",
     "'rejected' accepts any exception type",
+    "'its range' is the range of the DATA TYPE: declared limits (min/max, LowLimit/HighLimit) do not "
+    "narrow it - the statement is unconditional and the library documents limits as a warning only",
+    "data_type is a plain public attribute; an object whose data_type is re-assigned is judged by the "
+    "type it has at the time of the call",
+    "the result of encode_raw is the caller's: a later codec call must not change the bytes it holds "
+    "(its Python type is free: bytes, bytearray, memoryview are all accepted)",
+    "BOOLEAN bytes other than 00/01 are not pinned by the statement: True or an exception are accepted",
 ]
 BUDGET = {"quick": 150, "thorough": 300}
 
 _vars = {}
 
 
-def _var(dt, src="code"):
-    """The variable whose codec is exercised: made in code, or (src='eds') taken from a dictionary
-    imported from an EDS text that declares an object of that data type."""
-    v = _vars.get((dt, src))
-    if v is None:
-        if src == "eds":
-            import io
+def _lim_text(x):
+    """A limit as EDS text (negative numbers in decimal, CiA 306 allows both notations)."""
+    return repr(x) if isinstance(x, float) else str(int(x))
 
-            import canopen
-            from harness.c02 import render_eds
-            fp = io.StringIO(render_eds([{"kind": "var", "index": 0x2000, "name": "v", "dt": dt}], False))
-            fp.name = "generated.eds"
-            v = canopen.import_od(fp, 1)[0x2000]
-        else:
-            from canopen.objectdictionary import ODVariable
-            v = ODVariable("v", 0x2000, 0)
+
+def _make_var(dt, src="code", lim=None):
+    """A fresh variable object of data type dt (None: not set), made in code or (src='eds') taken from a
+    dictionary imported from an EDS text that declares an object of that data type; lim = [min, max]
+    (either may be None) are declared limits: attributes in code, LowLimit/HighLimit in the EDS."""
+    if src == "eds":
+        import io
+
+        import canopen
+        from harness.c02 import render_eds
+        text = render_eds([{"kind": "var", "index": 0x2000, "name": "v", "dt": dt}], False)
+        if lim:
+            extra = ""
+            if lim[0] is not None:
+                extra += f"LowLimit={_lim_text(lim[0])}\n"
+            if lim[1] is not None:
+                extra += f"HighLimit={_lim_text(lim[1])}\n"
+            assert text.count("PDOMapping=0\n") == 1
+            text = text.replace("PDOMapping=0\n", extra + "PDOMapping=0\n")
+        fp = io.StringIO(text)
+        fp.name = "generated.eds"
+        v = canopen.import_od(fp, 1)[0x2000]
+    else:
+        from canopen.objectdictionary import ODVariable
+        v = ODVariable("v", 0x2000, 0)
+        if dt is not None:
             v.data_type = dt
-        _vars[(dt, src)] = v
+        if lim:
+            v.min, v.max = lim
+    return v
+
+
+def _var(dt, src="code", lim=None):
+    """The (cached) variable whose codec is exercised by the single ops."""
+    key = (dt, src, tuple(lim) if lim else None)
+    v = _vars.get(key)
+    if v is None:
+        v = _vars[key] = _make_var(dt, src, lim)
     return v
 
 
 def run_case(case) -> Outcome:
+    if case["op"] == "hist":
+        return _run_hist(case)
+    out = _run_single(case)
+    if case.get("lim"):
+        out.klass += "/lim"
+    return out
+
+
+def _run_single(case) -> Outcome:
     op, dt = case["op"], case["dt"]
+    lim = case.get("lim")
     if case.get("prev") is not None:
         # the same variable object described another data type before and was used as such
         # (data_type is a plain public attribute; tools that build dictionaries in code re-use objects)
@@ -63,8 +115,10 @@ def run_case(case) -> Outcome:
         else:
             len(var)                    # looked at before the type was known
         var.data_type = dt
+        if lim:
+            var.min, var.max = lim
     else:
-        var = _var(dt, case.get("src", "code"))
+        var = _var(dt, case.get("src", "code"), lim)
     D = []
     name = rc.NAMES[dt]
 
@@ -106,6 +160,9 @@ def run_case(case) -> Outcome:
     if op == "bytes":
         b = case["b"]
         right = len(b) == rc.width(dt) // 8
+        # BOOLEAN: the statement pins 00/01 only (CiA 301: FALSE=0, TRUE=1); for any other byte a strict
+        # decoder may refuse, a lenient one says True
+        pinned = not (dt == rc.BOOLEAN and right and b[0] > 1)
         if case.get("mutable") and right:
             # received data is a bytearray (python-can, Network.notify): decoding must leave it alone
             # and a second decode of the same buffer must give the same value
@@ -120,13 +177,17 @@ def run_case(case) -> Outcome:
                     if not rc.values_equal(dt, v1, v2) and not (isinstance(v1, float) and v1 != v1):
                         bad("decode-not-repeatable", f"second decode of {bytes(b).hex()} gave {v2!r}, first {v1!r}")
             except Exception as e:
-                bad("decode-raises", f"decode_raw(bytearray {bytes(b).hex()}) raised {type(e).__name__}: {e}")
+                if bytes(buf) != bytes(b):
+                    bad("decode-changed-input", f"decode_raw(bytearray {bytes(b).hex()}) left the buffer as "
+                                                f"{bytes(buf).hex()}")
+                elif pinned:
+                    bad("decode-raises", f"decode_raw(bytearray {bytes(b).hex()}) raised {type(e).__name__}: {e}")
             if D:
                 return Outcome(True, f"bytes/{name}/bytearray", D)
         try:
             val = var.decode_raw(bytes(b))
         except Exception as e:
-            if right:
+            if right and pinned:
                 bad("decode-raises", f"decode_raw({bytes(b).hex()}) raised {type(e).__name__}: {e}")
             return Outcome(True, f"bytes/{name}/{'right' if right else 'wrong'}-length", D)
         if not right:
@@ -221,6 +282,197 @@ def run_case(case) -> Outcome:
     raise ValueError(op)
 
 
+TEXTS = (rc.VISIBLE_STRING, rc.UNICODE_STRING)
+RAWS = (rc.OCTET_STRING, rc.DOMAIN)
+
+
+def _run_hist(case) -> Outcome:
+    """A history over a few variable objects.  objs: [{dt (None = not set), src, lim}], steps:
+      {k: enc, o, v}    integer (current type integer: in range -> exact bytes, else rejected) / bool
+      {k: enc, o, bits} IEEE pattern of the current REAL type, the value encoded is its reference value
+      {k: enc, o, f}    finite double beyond the binary32 range (current type REAL32): rejected
+      {k: enc, o, s}    text (current type VISIBLE_STRING / UNICODE_STRING)
+      {k: dec, o, b}    byte string (current type integer / real / BOOLEAN), any length
+      {k: dec, o, s}    the reference encoding of text s
+      {k: len, o}       len(var)
+      {k: type, o, dt}  var.data_type = dt
+      {k: raw, o, b}    current type OCTET_STRING / DOMAIN (outside the property: used, not judged)
+    Every step is judged against the object's current type; every encode result is kept and must hold
+    the same bytes after every later step."""
+    objs = [_make_var(o["dt"], o.get("src", "code"), o.get("lim")) for o in case["objs"]]
+    cur = [o["dt"] for o in case["objs"]]
+    D = []
+    kept = []          # (description, object returned by encode_raw, its bytes when it was returned)
+    feats = set()
+    if len(objs) > 1:
+        feats.add("same-type-objs" if len(set(cur)) < len(cur) else "multi-type-objs")
+    if any(o.get("lim") for o in case["objs"]):
+        feats.add("lim")
+    if any(o.get("src") == "eds" for o in case["objs"]):
+        feats.add("eds")
+
+    def bad(kind, detail):
+        D.append(Discrepancy(f"C04/hist/{kind}", detail))
+
+    def out():
+        order = ("same-type-objs", "multi-type-objs", "retype", "reuse", "oor", "wrong-length", "lim", "eds")
+        return Outcome(True, "hist/" + "+".join(f for f in order if f in feats), D)
+
+    used = set()
+    for n, st_ in enumerate(case["steps"]):
+        i, k = st_["o"], st_["k"]
+        var, dt = objs[i], cur[i]
+        name = rc.NAMES.get(dt, "untyped")
+        at = f"step {n} obj {i} {name}:"
+        if k == "type":
+            var.data_type = st_["dt"]
+            cur[i] = st_["dt"]
+            feats.add("retype")
+        elif k == "len":
+            try:
+                got = len(var)
+            except Exception as e:
+                bad("len-raises", f"{at} len(var) raised {type(e).__name__}: {e}")
+                return out()
+            if (dt in rc.NUMERIC or dt == rc.BOOLEAN) and got != rc.width(dt):
+                bad("len", f"{at} len(var) = {got} want {rc.width(dt)}")
+        elif k == "raw":
+            if dt not in RAWS:
+                return Outcome(excluded="hist/step-does-not-fit-type")
+            try:
+                var.decode_raw(var.encode_raw(bytes(st_["b"])))
+            except Exception:
+                pass
+        elif k == "enc":
+            if i in used:
+                feats.add("reuse")
+            used.add(i)
+            # ---- what the property says about this value for the current type
+            reject = False
+            want = None
+            if dt in rc.INTEGERS and isinstance(st_.get("v"), int) and not isinstance(st_.get("v"), bool):
+                v = st_["v"]
+                lo, hi = rc.int_range(dt)
+                if lo <= v <= hi:
+                    want = rc.enc_int(dt, v)
+                else:
+                    reject = True
+                    feats.add("oor")
+            elif dt == rc.BOOLEAN and isinstance(st_.get("v"), bool):
+                v = st_["v"]
+                want = b"\x01" if v else b"\x00"
+            elif dt in rc.REALS and "bits" in st_ and st_["bits"] < (1 << rc.REALS[dt]):
+                want = st_["bits"].to_bytes(rc.REALS[dt] // 8, "little")
+                v = rc.dec_real(dt, want)
+                if math.isnan(v):
+                    want = None    # any NaN pattern of that width is a representation of NaN
+            elif dt == rc.REAL32 and "f" in st_ and abs(st_["f"]) >= 3.5e38 and not math.isinf(st_["f"]):
+                v = st_["f"]
+                reject = True
+                feats.add("oor")
+            elif dt in TEXTS and isinstance(st_.get("s"), str):
+                v = st_["s"]
+                want = rc.enc_visible(v) if dt == rc.VISIBLE_STRING else rc.enc_unicode(v)
+            else:
+                return Outcome(excluded="hist/step-does-not-fit-type")
+            try:
+                got = var.encode_raw(v)
+            except Exception as e:
+                if not reject:
+                    bad("encode-raises", f"{at} encode_raw({v!r}) raised {type(e).__name__}: {e}")
+                    return out()
+                got = None
+            if got is not None:
+                try:
+                    snap = bytes(got)
+                except Exception as e:
+                    bad("encode-type", f"{at} encode_raw({v!r}) returned {type(got).__name__}: {e}")
+                    return out()
+                if reject:
+                    bad("wrapped", f"{at} encode_raw({v!r}) returned {snap.hex()} instead of raising")
+                    return out()
+                if want is not None and snap != want:
+                    bad("encode-bytes", f"{at} encode_raw({v!r}) = {snap.hex()} want {want.hex()}")
+                    return out()
+                if want is None and not (len(snap) == rc.REALS[dt] // 8 and math.isnan(rc.dec_real(dt, snap))):
+                    bad("encode-bytes", f"{at} encode_raw(nan) = {snap.hex()}")
+                    return out()
+                # "decoding those bytes returns the value": the very object that was returned
+                try:
+                    back = var.decode_raw(got)
+                except Exception as e:
+                    bad("roundtrip-raises", f"{at} decode_raw(encode_raw({v!r})) raised {type(e).__name__}: {e}")
+                    return out()
+                if not _same_value(dt, back, v):
+                    bad("roundtrip", f"{at} decode_raw(encode_raw({v!r})) = {back!r}")
+                    return out()
+                kept.append((f"encode_raw({v!r}) of step {n} ({name}, obj {i})", got, snap))
+        elif k == "dec":
+            if "s" in st_:
+                if dt not in TEXTS:
+                    return Outcome(excluded="hist/step-does-not-fit-type")
+                s = st_["s"]
+                b = rc.enc_visible(s) if dt == rc.VISIBLE_STRING else rc.enc_unicode(s)
+                try:
+                    val = var.decode_raw(b)
+                    if val != s or not isinstance(val, str):
+                        bad("decode-value", f"{at} decode_raw({b.hex()}) = {val!r} want {s!r}")
+                except Exception as e:
+                    bad("decode-raises", f"{at} decode_raw({b.hex()}) raised {type(e).__name__}: {e}")
+            else:
+                if not (dt in rc.NUMERIC or dt == rc.BOOLEAN):
+                    return Outcome(excluded="hist/step-does-not-fit-type")
+                b = bytes(st_["b"])
+                right = len(b) == rc.width(dt) // 8
+                if not right:
+                    feats.add("wrong-length")
+                pinned = not (dt == rc.BOOLEAN and right and b[0] > 1)
+                buf = bytearray(b) if st_.get("mutable") else b
+                try:
+                    val = var.decode_raw(buf)
+                except Exception as e:
+                    if right and pinned:
+                        bad("decode-raises", f"{at} decode_raw({b.hex()}) raised {type(e).__name__}: {e}")
+                    elif bytes(buf) != b:
+                        bad("decode-changed-input", f"{at} decode_raw(bytearray {b.hex()}) left it as {bytes(buf).hex()}")
+                else:
+                    if bytes(buf) != b:
+                        bad("decode-changed-input", f"{at} decode_raw(bytearray {b.hex()}) left it as {bytes(buf).hex()}")
+                        return out()
+                    if not right:
+                        bad("wrong-length-decoded", f"{at} decode_raw({b.hex()}) ({len(b)} bytes) gave {val!r}")
+                    elif dt in rc.INTEGERS:
+                        want = rc.dec_int(dt, b)
+                        if val != want or isinstance(val, bool):
+                            bad("decode-value", f"{at} decode_raw({b.hex()}) = {val!r} want {want}")
+                    elif dt in rc.REALS:
+                        want = rc.dec_real(dt, b)
+                        if not isinstance(val, float) or not rc.float_bits_equal(val, want):
+                            bad("decode-value", f"{at} decode_raw({b.hex()}) = {val!r} want {want!r}")
+                    elif val is not (b[0] != 0):
+                        bad("decode-value", f"{at} decode_raw({b.hex()}) = {val!r}")
+        else:
+            raise ValueError(k)
+        if D:
+            return out()
+        for what, got, snap in kept:
+            now = bytes(got)
+            if now != snap:
+                bad("result-changed", f"the result of {what} was {snap.hex()} and holds {now.hex()} after {at} {k}")
+                return out()
+    return out()
+
+
+def _same_value(dt, back, v):
+    if dt in rc.INTEGERS:
+        return back == v and not isinstance(back, bool)
+    if dt == rc.BOOLEAN:
+        return back is v
+    if dt in rc.REALS:
+        return isinstance(back, float) and rc.float_bits_equal(back, v)
+    return isinstance(back, str) and back == v
+
+
 def _fclass(v):
     if math.isnan(v):
         return "nan"
@@ -234,6 +486,123 @@ def _fclass(v):
 
 
 # ---- generation ------------------------------------------------------------
+FIXED = [rc.BOOLEAN] + sorted(rc.NUMERIC)              # the types with a fixed width
+PROP_TYPES = FIXED + list(TEXTS)                         # the types the statement names
+
+
+def limit_kinds(dt):
+    """Declared limits [min, max] a variable of type dt may carry: strictly inside the type's range,
+    equal to it, inverted, one-sided, small, degenerate."""
+    if dt == rc.BOOLEAN:
+        return [[0, 0], [1, 1], [1, 0]]
+    if dt in rc.REALS:
+        top = 3.4028234663852886e38 if dt == rc.REAL32 else 1.7976931348623157e308
+        return [[-1.5, 2.5], [-top, top], [2.5, -1.5], [0.0, 0.0], [None, 1e-40], [1e30, None]]
+    lo, hi = rc.int_range(dt)
+    q = (hi - lo) // 4
+    kinds = [[lo + q, hi - q], [lo, hi], [hi - q, lo + q], [lo + q, None], [None, hi - q], [10, 100], [0, 0]]
+    if lo < 0:
+        kinds.append([-100, -10])
+    return kinds
+
+
+def near_limits(dt, lim):
+    lo, hi = rc.int_range(dt)
+    return sorted({x + d for x in lim if x is not None for d in (-2, -1, 0, 1, 2) if lo <= x + d <= hi})
+
+
+def real_samples(dt):
+    """non-integral values, -0.0, subnormals, largest finite, infinities (as bit patterns)"""
+    if dt == rc.REAL32:
+        return [0x3FC00000, 0xBF400000, 0x80000000, 0x00000001, 0x00400000, 0x7F7FFFFF, 0xFF800000, 0x7FC00000]
+    return [0x3FF8 << 48, 0xBFE8 << 48, 1 << 63, 1, 1 << 51, 0x7FEFFFFFFFFFFFFF, 0xFFF0 << 48, 0x7FF8 << 48]
+
+
+def enc_samples(dt, oor=True):
+    """payloads of enc steps for a type: range ends, small values, (just) out-of-range values"""
+    if dt == rc.BOOLEAN:
+        return [{"v": True}, {"v": False}]
+    if dt in rc.REALS:
+        out = [{"bits": x} for x in real_samples(dt)]
+        if oor and dt == rc.REAL32:
+            out += [{"f": 1e39}, {"f": -3.5e38}]
+        return out
+    if dt == rc.VISIBLE_STRING:
+        return [{"s": "a\x7fz"}, {"s": "\x00x"}, {"s": ""}]
+    if dt == rc.UNICODE_STRING:
+        return [{"s": "a\u20acz"}, {"s": "\ufeffx"}, {"s": "\x00\uffff"}]
+    lo, hi = rc.int_range(dt)
+    out = [{"v": hi - 24}, {"v": 77}, {"v": lo}, {"v": hi}, {"v": -1 if lo < 0 else 1}]
+    if oor:
+        out += [{"v": hi + 1}, {"v": lo - 1}]
+    return out
+
+
+def dec_samples(dt):
+    if dt in TEXTS:
+        return [{"s": "q\x00r" if dt == rc.VISIBLE_STRING else "q\x00\u0100"}]
+    n = rc.width(dt) // 8
+    if dt == rc.BOOLEAN:
+        return [{"b": b"\x01"}, {"b": b"\x00\x00"}, {"b": b""}]
+    return [{"b": bytes(range(0x81, 0x81 + n))}, {"b": bytes(n + 1)}, {"b": bytes(range(0x11, 0x11 + n - 1))},
+            {"b": bytes(range(0x71, 0x71 + n)), "mutable": True}]
+
+
+def use_steps(dt, o, short=False):
+    """steps that use object o as a variable of (its current) type dt"""
+    if dt is None:
+        return [{"k": "len", "o": o}]
+    if dt in RAWS:
+        return [{"k": "len", "o": o}, {"k": "raw", "o": o, "b": b"\x01\x02\x03"}]
+    e = enc_samples(dt)
+    d = dec_samples(dt)
+    if short:
+        e, d = e[:2], d[:1]
+    return ([{"k": "len", "o": o}] + [dict(x, k="enc", o=o) for x in e] + [dict(x, k="dec", o=o) for x in d]
+            + [dict(e[0], k="enc", o=o)])
+
+
+def pair_cases():
+    """two variable objects of one type (or of neighbouring types), or one object used repeatedly: results
+    of earlier encodes are kept while later ones are made"""
+    for n, dt in enumerate(PROP_TYPES):
+        e = enc_samples(dt, oor=False)
+        d = dec_samples(dt)
+        nb = PROP_TYPES[(n + 1) % len(PROP_TYPES)]
+        for objs in ([{"dt": dt}, {"dt": dt}], [{"dt": dt}, {"dt": dt, "src": "eds"}], [{"dt": dt}],
+                     [{"dt": dt, "src": "eds"}, {"dt": dt, "src": "eds"}], [{"dt": dt}, {"dt": nb}]):
+            b = len(objs) - 1
+            steps = [dict(e[0], k="enc", o=0), dict(e[1], k="enc", o=b), dict(d[0], k="dec", o=0),
+                     dict(e[-1], k="enc", o=b), dict(e[0], k="enc", o=b), {"k": "len", "o": 0}]
+            if objs[b]["dt"] != dt:
+                steps = [dict(e[0], k="enc", o=0)] + use_steps(nb, b) + [dict(e[1], k="enc", o=0)] + \
+                    use_steps(nb, b, short=True)
+            yield {"op": "hist", "objs": objs, "steps": steps}
+            if dt in rc.NUMERIC:
+                lim = limit_kinds(dt)[0]
+                yield {"op": "hist", "objs": [dict(o, lim=lim) for o in objs], "steps": steps}
+
+
+def retype_cases():
+    """one variable object that described type P (or none yet) and was used as such, then describes T, then
+    P again, then T: every ordered pair, the values of use_steps (non-integral reals, -0.0, subnormals,
+    bool, text, range ends and just-out-of-range integers)"""
+    k = 0
+    for P in [None] + PROP_TYPES + list(RAWS):
+        for T in PROP_TYPES:
+            if P == T:
+                continue
+            k += 1
+            obj = {"dt": P}
+            if P is not None and k % 3 == 0:
+                obj["src"] = "eds"
+            steps = use_steps(P, 0, short=True) + [{"k": "type", "o": 0, "dt": T}] + use_steps(T, 0)
+            if P is not None:
+                steps += [{"k": "type", "o": 0, "dt": P}] + use_steps(P, 0) + [{"k": "type", "o": 0, "dt": T}] + \
+                    use_steps(T, 0, short=True)
+            yield {"op": "hist", "objs": [obj], "steps": steps}
+
+
 def boundary_ints(dt):
     lo, hi = rc.int_range(dt)
     w = rc.INTEGERS[dt]
@@ -340,9 +709,74 @@ def search(ctx):
             if thorough or cp % 5 == 0:
                 yield {"op": "text", "dt": rc.UNICODE_STRING, "s": "a" + chr(cp) + "z"}
 
+        yield {"op": "text", "dt": rc.VISIBLE_STRING, "s": "a\x00b"}
+        for s_ in ("\x00x", "a\x00b", "\x00\x00\u0100", "\ufeff", "\ufffe\x00x"):
+            yield {"op": "text", "dt": rc.UNICODE_STRING, "s": s_}
+
     ctx.enumerate(gen_enum(), "8/16-bit values and byte patterns, boundaries, lengths 0..9, characters")
 
+    def gen_lim():
+        # the variable carries declared limits (code: min/max, EDS: LowLimit/HighLimit); same oracle
+        k = 0
+        for dt in sorted(rc.INTEGERS):
+            w = rc.INTEGERS[dt]
+            lo, hi = rc.int_range(dt)
+            bnd = boundary_ints(dt)
+            oor = oor_ints(dt)
+            for n, lim in enumerate(limit_kinds(dt)):
+                if w == 8 or (w == 16 and (thorough or n == 0)):
+                    vals = range(lo, hi + 1)
+                else:
+                    vals = sorted(set(bnd[n % 2::2] if not thorough else bnd) | set(near_limits(dt, lim)))
+                for v in vals:
+                    k += 1
+                    c = {"op": "int", "dt": dt, "v": v, "lim": lim}
+                    if k % 3 == 0:
+                        c["src"] = "eds"
+                    elif k % 31 == 1:
+                        c["prev"] = rc.REAL64
+                    yield c
+                for j, v in enumerate(oor):
+                    if j % 4 == n % 4 or v in (lo - 1, lo - 2, hi + 1, hi + 2) or thorough:
+                        k += 1
+                        yield {"op": "oor", "dt": dt, "v": v, "lim": lim, "src": "eds" if k % 2 else "code"}
+                nb = w // 8
+                for b in (bytes(nb), b"\xff" * nb, b"\x7f" * nb, b"\x80" * nb, bytes(range(0x81, 0x81 + nb)),
+                          bytes(nb + 1), bytes(nb - 1)):
+                    k += 1
+                    yield {"op": "bytes", "dt": dt, "b": b, "lim": lim, "src": "eds" if k % 2 else "code"}
+        for dt in sorted(rc.REALS):
+            kinds = limit_kinds(dt)
+            for n, bits in enumerate(real_patterns(dt)):
+                yield {"op": "real", "dt": dt, "bits": bits, "lim": kinds[n % len(kinds)],
+                       "src": "eds" if n % 3 == 0 else "code"}
+            for lim in kinds:
+                for bits in real_samples(dt):
+                    yield {"op": "real", "dt": dt, "bits": bits, "lim": lim}
+                    yield {"op": "real", "dt": dt, "bits": bits, "lim": lim, "src": "eds"}
+        for lim in limit_kinds(rc.REAL32):
+            for v in (3.5e38, -3.5e38, 1e39, -1e300, 1.7976931348623157e308):
+                yield {"op": "real_oor", "dt": rc.REAL32, "v": v, "lim": lim}
+        for lim in limit_kinds(rc.BOOLEAN):
+            for v in (False, True):
+                yield {"op": "bool", "dt": rc.BOOLEAN, "v": v, "lim": lim}
+                yield {"op": "bool", "dt": rc.BOOLEAN, "v": v, "lim": lim, "src": "eds"}
+
+    ctx.enumerate(gen_lim(), "variables with declared limits: boundaries, values around the limits, out of range")
+
+    def gen_hist():
+        yield from pair_cases()
+        yield from retype_cases()
+
+    ctx.enumerate(gen_hist(), "histories: pairs of objects of one type, every ordered pair (previous type, type)")
+
     wide = [dt for dt in sorted(rc.INTEGERS) if rc.INTEGERS[dt] > 16]
+
+    def with_lim(draw, case):
+        # one case in four: the variable carries declared limits
+        if draw(st.integers(0, 3)) == 0:
+            case["lim"] = draw(st.sampled_from(limit_kinds(case["dt"])))
+        return case
 
     @st.composite
     def rand_case(draw):
@@ -350,14 +784,14 @@ def search(ctx):
         if kind == "int":
             dt = draw(st.sampled_from(wide))
             lo, hi = rc.int_range(dt)
-            return {"op": "int", "dt": dt, "v": draw(st.integers(lo, hi)),
-                    "src": draw(st.sampled_from(["code", "code", "eds"]))}
+            return with_lim(draw, {"op": "int", "dt": dt, "v": draw(st.integers(lo, hi)),
+                                   "src": draw(st.sampled_from(["code", "code", "eds"]))})
         if kind == "oor":
             dt = draw(st.sampled_from(sorted(rc.INTEGERS)))
             lo, hi = rc.int_range(dt)
             mag = draw(st.integers(1, 1 << 72))
             v = hi + mag if draw(st.booleans()) else lo - mag
-            return {"op": "oor", "dt": dt, "v": v}
+            return with_lim(draw, {"op": "oor", "dt": dt, "v": v})
         if kind == "bytes":
             dt = draw(st.sampled_from([rc.BOOLEAN] + sorted(rc.NUMERIC)))
             n = draw(st.one_of(st.just(rc.width(dt) // 8), st.integers(0, 9)))
@@ -365,7 +799,7 @@ def search(ctx):
                     "mutable": draw(st.booleans())}
         if kind == "real":
             dt = draw(st.sampled_from(sorted(rc.REALS)))
-            return {"op": "real", "dt": dt, "bits": draw(st.integers(0, (1 << rc.REALS[dt]) - 1))}
+            return with_lim(draw, {"op": "real", "dt": dt, "bits": draw(st.integers(0, (1 << rc.REALS[dt]) - 1))})
         dt = draw(st.sampled_from([rc.VISIBLE_STRING, rc.UNICODE_STRING]))
         if dt == rc.VISIBLE_STRING:
             alpha = st.characters(min_codepoint=0, max_codepoint=127)
@@ -374,4 +808,73 @@ def search(ctx):
         s = draw(st.text(alpha, max_size=40)).rstrip("\x00")
         return {"op": "text", "dt": dt, "s": s}
 
-    ctx.hypothesis(rand_case(), 50000 if thorough else 6000)
+
+    bnd = {dt: boundary_ints(dt) for dt in rc.INTEGERS}
+
+    def draw_enc(draw, dt):
+        if dt == rc.BOOLEAN:
+            return {"v": draw(st.booleans())}
+        if dt in rc.REALS:
+            if dt == rc.REAL32 and draw(st.integers(0, 9)) == 0:
+                f = draw(st.floats(3.5e38, 1.7976931348623157e308))
+                return {"f": f if draw(st.booleans()) else -f}
+            return {"bits": draw(st.one_of(st.sampled_from(real_samples(dt)),
+                                           st.integers(0, (1 << rc.REALS[dt]) - 1)))}
+        if dt in TEXTS:
+            return {"s": draw(text_of(dt, 12))}
+        lo, hi = rc.int_range(dt)
+        if draw(st.integers(0, 7)) == 0:
+            mag = draw(st.one_of(st.integers(1, 3), st.integers(1, 1 << 66)))
+            return {"v": hi + mag if draw(st.booleans()) else lo - mag}
+        return {"v": draw(st.one_of(st.sampled_from(bnd[dt]), st.integers(lo, hi)))}
+
+    def text_of(dt, n):
+        if dt == rc.VISIBLE_STRING:
+            alpha = st.characters(min_codepoint=0, max_codepoint=127)
+        else:
+            alpha = st.characters(min_codepoint=0, max_codepoint=0xFFFF, exclude_categories=["Cs"])
+        return st.text(alpha, max_size=n).map(lambda s_: s_.rstrip("\x00"))
+
+    @st.composite
+    def hist_case(draw):
+        n = draw(st.integers(1, 3))
+        base = draw(st.sampled_from(PROP_TYPES))
+        objs = []
+        for _ in range(n):
+            dt = base if draw(st.integers(0, 3)) else draw(st.sampled_from(PROP_TYPES))
+            o = {"dt": dt, "src": draw(st.sampled_from(["code", "code", "eds"]))}
+            if dt in FIXED and draw(st.integers(0, 3)) == 0:
+                o["lim"] = draw(st.sampled_from(limit_kinds(dt)))
+            objs.append(o)
+        cur = [o["dt"] for o in objs]
+        steps = []
+        for _ in range(draw(st.integers(2, 10))):
+            i = draw(st.integers(0, n - 1))
+            dt = cur[i]
+            k = draw(st.sampled_from(["enc"] * 5 + ["dec"] * 2 + ["len", "type"]))
+            if k == "type":
+                cur[i] = draw(st.sampled_from(PROP_TYPES * 2 + list(RAWS)))
+                steps.append({"k": "type", "o": i, "dt": cur[i]})
+            elif k == "len":
+                steps.append({"k": "len", "o": i})
+            elif dt in RAWS:
+                steps.append({"k": "raw", "o": i, "b": draw(st.binary(max_size=9))})
+            elif k == "enc":
+                steps.append(dict(draw_enc(draw, dt), k="enc", o=i))
+            elif dt in TEXTS:
+                steps.append({"k": "dec", "o": i, "s": draw(text_of(dt, 12))})
+            else:
+                m = draw(st.one_of(st.just(rc.width(dt) // 8), st.integers(0, 9)))
+                steps.append({"k": "dec", "o": i, "b": draw(st.binary(min_size=m, max_size=m)),
+                              "mutable": draw(st.booleans())})
+        return {"op": "hist", "objs": objs, "steps": steps}
+
+    if not thorough:
+        ctx.hypothesis(rand_case(), 6000)
+        ctx.hypothesis(hist_case(), 3000, salt=1)
+    else:
+        # alternate the two random families so that a time budget cut short on a loaded machine
+        # takes from both
+        for j in range(4):
+            ctx.hypothesis(rand_case(), 12500, salt=2 * j)
+            ctx.hypothesis(hist_case(), 3000, salt=2 * j + 1)
